@@ -138,9 +138,9 @@ def run(ctx):
                 if rng.random() < 0.5 and not ctx.get("no_bounds"):
                     b = {}
                     if rng.random() < 0.7:
-                        b["ub"] = rng.choice([1.5, 2.0, 4.5, 0.5])
+                        b["ub"] = rng.choice([1.5, 2.0, 4.5, 0.5, 0.0])
                     if rng.random() < 0.6:
-                        b["lb"] = rng.choice([-0.5, 0.25, 3.0, -2.0])
+                        b["lb"] = rng.choice([-0.5, 0.25, 3.0, -2.0, 0.0])
                     r["bounds"][nm] = b
             runs.append(r)
         tasks.append({"fn": "c13.impl_run", "indict": ind, "disable_analytic": da, "runs": runs, "timeout": 900})
